@@ -5,6 +5,23 @@ def benign(prop, name, edits, note=""):
                   edits=[dict(file=f, find=a, replace=b) for (f, a, b) in edits],
                   expect_none=True, expect_rule="", expect_construct="", note=note))
 
+# equivalent mutant (was listed as a violation until the abstract executions showed it is none: an old file whose proof
+# is missing never reaches the second test): must stay silent
+benign("C03","redundant-found-in-burn-test",[("x/storage/keeper/rewards.go",
+  'if !proven && !file.IsYoung(currentHeight) { // if file wasn\'t proven, and is old, we burn it.','if !proven && !file.IsYoung(currentHeight) && found { // if file wasn\'t proven, and is old, we burn it.')])
+
+# ---- C07 R6 / R7 (plan-paid classes, no overwrite): inverses of fixes c0f805a3 / 629bf6d9 and neighbours
+m("C07","validatebasic-accepts-negative-expires","x/storage/types/message_post_file.go",
+  'if msg.Expires < 0 {','if msg.Expires < 0 && msg.FileSize < 0 {',"C07/R6","(x/storage/keeper.Keeper).RemoveFile:plan-paid-class:Expires-negative","inverse of fix c0f805a3")
+m("C07","removal-refunds-only-payonce","x/storage/keeper/files.go",
+  'if file.Expires == 0 { // a plan-paid file','if file.Expires > 0 { // a plan-paid file',"C07/R6","(x/storage/keeper.Keeper).RemoveFile:plan-paid-class:Expires-zero")
+m("C07","postfile-no-existence-check","x/storage/keeper/msg_server_post_file.go",
+  'if _, found := k.GetFile(ctx, msg.Merkle, msg.Creator, ctx.BlockHeight()); found {','if _, found := k.GetFile(ctx, msg.Merkle, msg.Creator, ctx.BlockHeight()); found && msg.Expires > 0 {',"C07/R7","storage.MsgPostFile:create-only-if-absent","inverse of fix 629bf6d9")
+m("C07","postfile-existence-check-other-height","x/storage/keeper/msg_server_post_file.go",
+  'if _, found := k.GetFile(ctx, msg.Merkle, msg.Creator, ctx.BlockHeight()); found {','if _, found := k.GetFile(ctx, msg.Merkle, msg.Creator, ctx.BlockHeight()-1); found {',"C07/R7","storage.MsgPostFile:absent-check-key=written-key")
+benign("C07","removal-refunds-nonpositive",[("x/storage/keeper/files.go",'if file.Expires == 0 { // a plan-paid file','if file.Expires <= 0 { // a plan-paid file')])
+benign("C07","post-branches-on-nonzero",[("x/storage/keeper/msg_server_post_file.go",'if msg.Expires > 0 { // if the file is posted as a one-time payment','if msg.Expires != 0 { // if the file is posted as a one-time payment')])
+
 # ---- independent seeded changes as corpus entries
 from_patch("C10","seed-reset-early-return","seeded/C10-reset-early-return/patch.diff","C10/R5","success-implies-change","seed")
 from_patch("C11","seed-feed-created-under-trimmed-name","seeded/C11-feed-created-under-trimmed-name/patch.diff","C11/R6","oracle.MsgCreateFeed:absent-check-key=written-key","seed")
@@ -834,7 +851,7 @@ from_patch("C04","seed4-zero-ratio-replaced-by-default","seeded/C04-zero-ratio-r
 from_patch("C06","seed4-zero-ratio-replaced-by-default","seeded/C04-zero-ratio-replaced-by-default/patch.diff","C06/R6","storage:params-getter-faithful","seed round 4 (written against C04)")
 from_patch("C05","seed4-prover-list-presized-by-maxproofs","seeded/C05-prover-list-presized-by-maxproofs/patch.diff","C05/R4","make-size","seed round 4")
 from_patch("C06","seed4-params-cached-in-process","seeded/C06-params-cached-in-process/patch.diff","C06/R6","writes-through-keeper-field","seed round 4")
-from_patch("C07","seed4-plan-charged-under-canonical-address","seeded/C07-plan-charged-under-canonical-address/patch.diff","C07/R5","charge-key=stored-owner","seed round 4")
+from_patch("C07","seed4-plan-charged-under-canonical-address","seeded/C07-plan-charged-under-canonical-address/patch_rebased.diff","C07/R5","charge-key=stored-owner","seed round 4")
 from_patch("C08","seed4-name-getter-returns-subdomain-record","seeded/C08-name-getter-returns-subdomain-record/patch.diff","C08/R4","GetNames:getter-faithful","seed round 4")
 from_patch("C11","seed4-name-getter-returns-subdomain-record","seeded/C08-name-getter-returns-subdomain-record/patch.diff","C11/R8","GetNames:getter-faithful","seed round 4 (written against C08)")
 from_patch("C09","seed4-import-drops-bids-on-unregistered-names","seeded/C09-import-drops-bids-on-unregistered-names/patch.diff","C09/R7","import-every-element:Bids","seed round 4")
@@ -963,7 +980,7 @@ for _d in sorted(glob.glob(os.path.join(os.path.dirname(os.path.abspath(__file__
     _own = os.path.basename(_d)
     for _f in sorted(glob.glob(os.path.join(_d, "*.diff"))):
         _base = os.path.basename(_f)[:-5]
-        _props = {_own}
+        _props = {_own[:3]}
         for _ln in open(_f):
             if _ln.startswith("+++ b/"):
                 for _m, _ps in _MODPROPS.items():
